@@ -333,11 +333,11 @@ def wGs : Str → List Str := fun a => if a = wA then [wG1] else if a = wB then 
 def wTasks : List (Str × Str) := [(wA, [120]), (wB, [121])]
 def wWorld : World := ⟨[(wG1, 5), (wG2, 7)], 0⟩
 def wT4 : Str := [116, 52, 46, 106, 115, 111, 110, 108]  -- "t4.jsonl"
-def wRec (id : Nat) : Rec := [([117], .opq id true none none 40)]  -- {"u": <40 chars>}: estimate 47 with `val`
+def wRec (id : Nat) : Rec := [([117], .opq id true none none 40)]  -- {"u": <40 chars>}: estimate 52 with `turn` and `val`
 /-- a contract-following table (turn 3, slice 0). -/
 def wScripts : List ((Str × Str) × Script) :=
-  [((wA, [120]), ⟨.opq 10 true none none 1, 3, 0, [wG1], [(wT1, wRec 0), (wT4, wRec 1)], [(wG1, 1)], [97]⟩),
-   ((wB, [121]), ⟨.opq 11 true none none 1, 3, 0, [wG2], [(wT1, wRec 2)], [(wG2, 2)], [98]⟩)]
+  [((wA, [120]), ⟨.opq 10 true none none 1, .int 3, 3, 0, [wG1], [(wT1, wRec 0), (wT4, wRec 1)], [(wG1, 1)], [97]⟩),
+   ((wB, [121]), ⟨.opq 11 true none none 1, .int 3, 3, 0, [wG2], [(wT1, wRec 2)], [(wG2, 2)], [98]⟩)]
 
 example : scriptsOkB wGs 3 0 wScripts = true := by decide
 example : (wTasks.map (·.1)).Pairwise (Disj wGs) := by
@@ -375,9 +375,9 @@ theorem C10_batch_limit_too_small :
 /-- … and with a limit that admits the captured logs but not the (larger) apply record, the
 state HAS been committed (`apply_changes` ran) while its `apply.jsonl` record and all results are lost. -/
 theorem C10_batch_limit_too_small_after_commit :
-    (runPar false 50 (worldParams 3 0 wScripts) wGs 2 wWorld wTasks).ok = false ∧
-    (runPar false 50 (worldParams 3 0 wScripts) wGs 2 wWorld wTasks).state = ⟨[(wG1, 6), (wG2, 7)], 1⟩ ∧
-    fileOf applyPath (runPar false 50 (worldParams 3 0 wScripts) wGs 2 wWorld wTasks).written = [] := by
+    (runPar false 60 (worldParams 3 0 wScripts) wGs 2 wWorld wTasks).ok = false ∧
+    (runPar false 60 (worldParams 3 0 wScripts) wGs 2 wWorld wTasks).state = ⟨[(wG1, 6), (wG2, 7)], 1⟩ ∧
+    fileOf applyPath (runPar false 60 (worldParams 3 0 wScripts) wGs 2 wWorld wTasks).written = [] := by
   decide
 
 theorem C10_batch_all_limits_false :
@@ -392,8 +392,8 @@ theorem C10_batch_all_limits_false :
 logs to `apply.jsonl` gets its records staged before every commit record, the sequential loop
 interleaves them. -/
 def wScriptsApplyLog : List ((Str × Str) × Script) :=
-  [((wA, [120]), ⟨.opq 10 true none none 1, 3, 0, [wG1], [(applyPath, wRec 0)], [], [97]⟩),
-   ((wB, [121]), ⟨.opq 11 true none none 1, 3, 0, [wG2], [(applyPath, wRec 2)], [], [98]⟩)]
+  [((wA, [120]), ⟨.opq 10 true none none 1, .int 3, 3, 0, [wG1], [(applyPath, wRec 0)], [], [97]⟩),
+   ((wB, [121]), ⟨.opq 11 true none none 1, .int 3, 3, 0, [wG2], [(applyPath, wRec 2)], [], [98]⟩)]
 
 theorem C10_contract_apply_log_needed :
     scriptsOkB wGs 3 0 wScriptsApplyLog = false ∧
@@ -406,8 +406,8 @@ theorem C10_contract_apply_log_needed :
 returning turn ids 2 then 1 are committed (and their results returned) in turn-id order, not in
 task order. -/
 def wScriptsKeys : List ((Str × Str) × Script) :=
-  [((wA, [120]), ⟨.opq 10 true none none 1, 2, 0, [wG1], [(wT1, wRec 0)], [(wG1, 1)], [97]⟩),
-   ((wB, [121]), ⟨.opq 11 true none none 1, 1, 0, [wG2], [(wT1, wRec 2)], [(wG2, 2)], [98]⟩)]
+  [((wA, [120]), ⟨.opq 10 true none none 1, .int 2, 2, 0, [wG1], [(wT1, wRec 0)], [(wG1, 1)], [97]⟩),
+   ((wB, [121]), ⟨.opq 11 true none none 1, .int 1, 1, 0, [wG2], [(wT1, wRec 2)], [(wG2, 2)], [98]⟩)]
 
 theorem C10_contract_key_needed :
     (runPar false 1000 (worldParams 3 0 wScriptsKeys) wGs 2 wWorld wTasks).lines = [([98], 7), ([97], 5)] ∧
